@@ -5,6 +5,7 @@ extern crate zeroize;
 
 mod checks;
 mod conv;
+mod h2cref;
 mod infra;
 mod refmodel;
 mod alpha;
